@@ -315,16 +315,9 @@ Qed.
 Definition in_i8 (z : Z) : Prop := -128 <= z <= 127.
 Definition cfg_ok (c : cfg) : Prop := -128 < c_min c /\ c_min c <= c_max c /\ c_max c < 127.
 
-Lemma i8_id : forall z, in_i8 z -> i8 z = z.
-Proof.
-  intros z H. unfold i8, to_signed, in_i8 in *. cbv zeta.
-  change (2 ^ 8) with 256. change (2 ^ (8 - 1)) with 128.
-  destruct (z mod 256 <? 128) eqn:E; lia.
-Qed.
-
 Lemma poll_inc_ge : forall c p, in_i8 p -> p < 127 ->
   poll_inc c p = Z.min (p + 1) (c_max c).
-Proof. intros c p H L. unfold poll_inc. rewrite i8_id; auto. unfold in_i8 in *. lia. Qed.
+Proof. intros c p H L. unfold poll_inc, sat_i8, in_i8 in *. lia. Qed.
 
 Theorem deny_nts : forall c s now p id,
   accepts s now p = Some id -> is_kiss_ntsn p = false ->
@@ -440,10 +433,8 @@ Proof.
         cbn [s_remote_min s_last_poll s_req set_ver set_remote_min set_deny fst];
         try solve [repeat split; auto; try lia; try (intros _; lia)].
       * (* RATE *)
-        unfold poll_inc, i8, to_signed. cbv zeta.
-        change (2 ^ 8) with 256. change (2 ^ (8 - 1)) with 128.
-        destruct ((s_remote_min s + 1) mod 256 <? 128) eqn:B;
-          repeat split; try lia; try (intros _; lia).
+        unfold poll_inc, sat_i8.
+        repeat split; try lia; try (intros _; lia).
       * (* accepted answer *)
         destruct (is_v5 p && (p_poll p >? s_remote_min s)) eqn:B;
           repeat split; try lia; try congruence.
